@@ -382,9 +382,7 @@ impl SimNode {
             }
             Method::Pay => {
                 let b = params.get("bolt11")?.as_str()?;
-                let inv: lightning_invoice::Bolt11Invoice = b.parse().ok()?;
-                use secp256k1::hashes::Hash as _;
-                Some(inv.payment_hash().to_byte_array())
+                rf::invoice_info(b, &pool().local_pubkey).ok().map(|i| i.hash)
             }
             _ => None,
         }
@@ -726,14 +724,13 @@ impl SimNode {
             Some(b) => b.to_string(),
             None => return RpcState::ReplyReady(err(-32602, "missing bolt11")),
         };
-        let inv: lightning_invoice::Bolt11Invoice = match bolt11.parse() {
+        let inv = match rf::invoice_info(&bolt11, &pool().local_pubkey) {
             Ok(i) => i,
             Err(_) => return RpcState::ReplyReady(err(-32602, "Invalid bolt11")),
         };
-        use secp256k1::hashes::Hash as _;
-        let hash: H32 = inv.payment_hash().to_byte_array();
+        let hash: H32 = inv.hash;
         let amt_param = p.get("amount_msat").and_then(parse_amount);
-        let amount = match (inv.amount_milli_satoshis(), amt_param) {
+        let amount = match (inv.amount, amt_param) {
             (Some(_), Some(_)) => {
                 return RpcState::ReplyReady(err(-32602, "amount_msat parameter unnecessary"))
             }
